@@ -92,13 +92,17 @@ func (g *c18Graph) acquireEnabled(s map[string]bool) bool {
 }
 
 func c18Secondary(clusterName string, primaryPeerURLs []string) Cluster {
+	return c18SecondaryT(clusterName, primaryPeerURLs, "secondary-member-x", "10s")
+}
+
+func c18SecondaryT(clusterName string, primaryPeerURLs []string, memberName, requestTimeout string) Cluster {
 	ports, err := freeport.GetFreePorts(1)
 	check(err)
 	opt := option.New()
-	opt.Name = "secondary-member-x"
+	opt.Name = memberName
 	opt.ClusterName = clusterName
 	opt.ClusterRole = "secondary"
-	opt.ClusterRequestTimeout = "10s"
+	opt.ClusterRequestTimeout = requestTimeout
 	opt.Cluster.PrimaryListenPeerURLs = primaryPeerURLs
 	opt.APIAddr = fmt.Sprintf("localhost:%d", ports[0])
 	_, err = opt.Parse()
@@ -280,6 +284,60 @@ func TestVerifC18mutex(t *testing.T) {
 			},
 			Replay: func(ch []int) (*mc.Failure, []string) { return mc.ReplayOne(run, ch) }})
 	}
+	// "a failed or timed-out acquisition leaves it free for others": a member with a short request timeout fails to
+	// acquire while another member holds the mutex; after the release every handle must be able to acquire it
+	impatient := c18SecondaryT(primaryOpt.ClusterName, primaryOpt.Cluster.InitialAdvertisePeerURLs, "secondary-member-y", "1s")
+	failedRun := func(c *mc.Ctx) {
+		lock := fmt.Sprintf("/verif/c18/failed-%d-%d", os.Getpid(), atomic.AddInt64(&c18Seq, 1))
+		holderH, err := primary.Mutex(lock)
+		if err != nil {
+			c.Failf("harness:mutex-handle", "%v", err)
+		}
+		loser, _ := impatient.Mutex(lock)
+		other, _ := impatient.Mutex(lock)
+		attempts := 1 + c.Choose(2, "failed-attempts")
+		next := []string{"the-handle-that-failed", "another-handle-of-that-member", "the-previous-holder"}[c.Choose(3, "next-acquirer")]
+		if !c.Mine() {
+			return
+		}
+		if err := holderH.Lock(); err != nil {
+			c.Failf("mutex:lock-returned-error:failed-acquisition", "holder: %v", err)
+		}
+		for i := 0; i < attempts; i++ {
+			res := make(chan error, 1)
+			go func() { res <- loser.Lock() }()
+			select {
+			case err := <-res:
+				if err == nil {
+					c.Failf("mutex:two-holders:failed-acquisition", "member 2 acquired the mutex while member 1 holds it")
+				}
+			case <-time.After(20 * time.Second):
+				// the request timeout is 1 s: a Lock that neither succeeds nor fails is stuck on something a failed attempt left behind
+				c.Failf("mutex:failed-acquisition-leaves-mutex-unusable:the-handle-that-failed", "attempt %d of a member with a 1 s request timeout to lock a mutex held by another member did not return within 20 s", i+1)
+			}
+		}
+		if err := holderH.Unlock(); err != nil {
+			c.Failf("mutex:unlock-error:failed-acquisition", "%v", err)
+		}
+		h := map[string]Mutex{"the-handle-that-failed": loser, "another-handle-of-that-member": other, "the-previous-holder": holderH}[next]
+		got := make(chan error, 1)
+		go func() { got <- h.Lock() }()
+		select {
+		case err := <-got:
+			if err != nil {
+				c.Failf("mutex:failed-acquisition-leaves-mutex-unusable:"+next, "after %d timed-out Lock call(s) of a member and the holder's Unlock, Lock by %s failed: %v", attempts, next, err)
+			}
+			h.Unlock()
+		case <-time.After(20 * time.Second):
+			c.Failf("mutex:failed-acquisition-leaves-mutex-unusable:"+next, "after %d timed-out Lock call(s) of a member and the holder's Unlock, Lock by %s did not return within 20 s although nobody holds the mutex", attempts, next)
+		}
+		c.Outcome(fmt.Sprintf("failed%d-then-%s", attempts, next))
+	}
+	jobs = append(jobs, mc.Job{Name: "failed-acquisition",
+		Run: func(r *mc.Result, e *mc.Env) {
+			mc.Explore(r, mc.Options{Job: "failed-acquisition", MaxDev: -1, SubShard: e.Shard, SubN: e.NShards, SubDepth: 2, Env: e}, failedRun)
+		},
+		Replay: func(ch []int) (*mc.Failure, []string) { return mc.ReplayOne(failedRun, ch) }})
 	// probe for the double grant of the two-handles-one-member configuration (TLC: invariant violated in config B1)
 	jobs = append(jobs, mc.Job{Name: "probe/two-handles-one-member",
 		Run: func(r *mc.Result, e *mc.Env) {
